@@ -320,7 +320,7 @@ func init() {
 			if tier == "thorough" {
 				return []*engine.Scenario{mk("c10-voting-power", []int{2, 1, 3, 4, 1}, 8)}
 			}
-			return []*engine.Scenario{mk("c10-voting-power", []int{1, 1, 2, 3, 1}, 5)}
+			return []*engine.Scenario{mk("c10-voting-power", []int{2, 1, 2, 3, 1}, 5)}
 		},
 		Assumptions: []string{
 			"full-pipeline world: ModuleManager.EndBlock/BeginBlock with harness-built VoteInfos, real StakingKeeper.Slash, real x/staking msg server for native delegations, Jail/Unjail through the staking keeper, MaxValidators through staking params",
